@@ -408,4 +408,190 @@ Section SigProofs.
     - destruct (kmap_find m i); reflexivity.
     - destruct d; reflexivity.
   Qed.
+
+  (* ---------- histories: everything the library builds verifies ---------- *)
+  Inductive chop :=
+  | HBuild (rid : option N) (blk : bytes) (src : source)
+  | HAppend (i : nat) (blk : bytes) (src : source)
+  | HSeal (i : nat).
+
+  Definition hstep (root_seed : bytes) (st : list container) (o : chop) : list container :=
+    match o with
+    | HBuild rid blk src =>
+        match build root_seed rid blk src with Ok (c, _) => st ++ [c] | _ => st end
+    | HAppend i blk src =>
+        match nth_error st i with
+        | Some p => match append p blk src with Ok (c, _) => st ++ [c] | _ => st end
+        | None => st
+        end
+    | HSeal i =>
+        match nth_error st i with
+        | Some p => match seal p with Ok c => st ++ [c] | _ => st end
+        | None => st
+        end
+    end.
+
+  Lemma append_inv c blk src c' src' :
+    append c blk src = Ok (c', src') ->
+    exists s, c_proof c = PNextSecret s /\ 32 <= length src /\ src' = skipn 32 src.
+  Proof.
+    unfold Chain.append. destruct (c_proof c) as [s|s|]; try discriminate.
+    destruct (negb (length s =? 32)); [discriminate|].
+    unfold gen_seed. destruct (Nat.leb_spec 32 (length src)) as [H|H]; cbn [bind]; [|discriminate].
+    intros E. exists s. repeat split; auto. congruence.
+  Qed.
+
+  Lemma seal_inv c c' : seal c = Ok c' -> exists s, c_proof c = PNextSecret s.
+  Proof.
+    unfold Chain.seal. destruct (c_proof c) as [s|s|]; try discriminate. eauto.
+  Qed.
+
+  Lemma build_inv root_seed rid blk src c src' :
+    build root_seed rid blk src = Ok (c, src') -> 32 <= length src.
+  Proof.
+    unfold Chain.build, gen_seed.
+    destruct (Nat.leb_spec 32 (length src)) as [H|H]; cbn [bind]; [auto|discriminate].
+  Qed.
+
+  Theorem history_complete root_seed (ops : list chop) :
+    length root_seed = 32 ->
+    forall st, Forall (fun c => verify_token (pub root_seed) c = Ok tt) st ->
+    Forall (fun c => verify_token (pub root_seed) c = Ok tt) (fold_left (hstep root_seed) ops st).
+  Proof.
+    intros Hr. induction ops as [|o ops IH]; intros st Hst; cbn [fold_left]; [assumption|].
+    apply IH. destruct o as [rid blk src|i blk src|i]; cbn [hstep].
+    - destruct (build root_seed rid blk src) as [[c sr]| |] eqn:E; try assumption.
+      apply Forall_app. split; [assumption|]. constructor; [|constructor].
+      pose proof (build_inv _ _ _ _ _ _ E) as Hs.
+      destruct (build_success root_seed rid blk src Hr Hs) as (c0 & E0 & _ & _ & _ & _ & _ & Hv).
+      rewrite E in E0. injection E0 as <-. assumption.
+    - destruct (nth_error st i) as [p|] eqn:Hn; [|assumption].
+      destruct (append p blk src) as [[c sr]| |] eqn:E; try assumption.
+      apply Forall_app. split; [assumption|]. constructor; [|constructor].
+      destruct (append_inv _ _ _ _ _ E) as (s & Hp & Hs & _).
+      assert (Hvp : verify_token (pub root_seed) p = Ok tt).
+      { rewrite Forall_forall in Hst. apply Hst. eapply nth_error_In; eauto. }
+      destruct (append_success (pub root_seed) p blk src s (pub_len _ Hr) Hs Hvp Hp)
+        as (c0 & b0 & E0 & _ & _ & _ & _ & _ & _ & Hv).
+      rewrite E in E0. injection E0 as <-. assumption.
+    - destruct (nth_error st i) as [p|] eqn:Hn; [|assumption].
+      destruct (seal p) as [c| |] eqn:E; try assumption.
+      apply Forall_app. split; [assumption|]. constructor; [|constructor].
+      destruct (seal_inv _ _ E) as (s & Hp).
+      assert (Hvp : verify_token (pub root_seed) p = Ok tt).
+      { rewrite Forall_forall in Hst. apply Hst. eapply nth_error_In; eauto. }
+      destruct (seal_success (pub root_seed) p s (pub_len _ Hr) Hvp Hp) as (c0 & E0 & _ & _ & _ & _ & Hv).
+      rewrite E in E0. injection E0 as <-. assumption.
+  Qed.
+
+  (* along every history: derived tokens keep the root key id of the token they come from,
+     and their revocation ids extend the parent's *)
+  Theorem history_step_preserves root_seed st o :
+    forall c, In c (hstep root_seed st o) -> In c st \/
+      (exists rid blk src, o = HBuild rid blk src /\ c_rootid c = rid) \/
+      (exists p, In p st /\ c_rootid c = c_rootid p /\
+         exists l, revocation_ids c = revocation_ids p ++ l).
+  Proof.
+    intros c Hc. destruct o as [rid blk src|i blk src|i]; cbn [hstep] in Hc.
+    - destruct (build root_seed rid blk src) as [[c0 sr]| |] eqn:E; auto.
+      apply in_app_or in Hc as [Hc|[<-|[]]]; auto.
+      right. left. exists rid, blk, src. split; [reflexivity|]. eapply rootid_build; eauto.
+    - destruct (nth_error st i) as [p|] eqn:Hn; auto.
+      destruct (append p blk src) as [[c0 sr]| |] eqn:E; auto.
+      apply in_app_or in Hc as [Hc|[<-|[]]]; auto.
+      right. right. exists p. split; [eapply nth_error_In; eauto|].
+      split; [eapply rootid_append; eauto|].
+      destruct (revocation_ids_append _ _ _ _ _ E) as [sg Hsg]. eauto.
+    - destruct (nth_error st i) as [p|] eqn:Hn; auto.
+      destruct (seal p) as [c0| |] eqn:E; auto.
+      apply in_app_or in Hc as [Hc|[<-|[]]]; auto.
+      right. right. exists p. split; [eapply nth_error_In; eauto|].
+      split; [eapply rootid_seal; eauto|].
+      exists []. rewrite app_nil_r. eapply revocation_ids_seal; eauto.
+  Qed.
+
+  (* ---------- unforgeability relative to an ideal signature ledger ---------- *)
+  Variable Signed : bytes -> bytes -> bytes -> Prop.   (* key, message, signature: "was produced by the key's owner" *)
+  Hypothesis verify_sound : forall k m s, verify k m s = true -> Signed k m s.
+
+  Fixpoint links_signed (cur : bytes) (bs : list sblock) : Prop :=
+    match bs with
+    | [] => True
+    | b :: bs' => Signed cur (payload b) (sb_sig b) /\ links_signed (sb_key b) bs'
+    end.
+
+  Lemma links_valid_signed bs : forall cur, links_valid cur bs -> links_signed cur bs.
+  Proof.
+    induction bs as [|b bs IH]; intros cur; cbn [Chain.links_valid links_signed]; [auto|].
+    intros (_ & Hv & _ & Hr). split; [apply verify_sound; assumption | apply IH; assumption].
+  Qed.
+
+  Theorem accepted_is_signed root c :
+    length root = 32 -> verify_token root c = Ok tt ->
+    links_signed root (c_auth c :: c_blocks c) /\
+    match c_proof c with
+    | PNextSecret s => sb_key (last_sblock c) = pub s
+    | PFinalSig g => Signed (sb_key (last_sblock c)) (seal_payload (last_sblock c)) g
+    | PNone => False
+    end.
+  Proof.
+    intros Hr Hv. apply verify_token_iff_chain in Hv as [Hl Hp]; [|assumption].
+    split; [apply links_valid_signed; assumption|].
+    unfold Chain.proof_valid in Hp. destruct (c_proof c) as [s|g|]; [tauto | auto | assumption].
+  Qed.
+
+  (* contrapositive: one link nobody with the private key signed => rejected *)
+  Theorem unsigned_link_rejected root c :
+    length root = 32 -> ~ links_signed root (c_auth c :: c_blocks c) -> verify_token root c <> Ok tt.
+  Proof. intros Hr Hn Hv. apply Hn. apply (accepted_is_signed root c Hr Hv). Qed.
+
+  Theorem unsigned_seal_rejected root c g :
+    length root = 32 -> c_proof c = PFinalSig g ->
+    ~ Signed (sb_key (last_sblock c)) (seal_payload (last_sblock c)) g -> verify_token root c <> Ok tt.
+  Proof.
+    intros Hr Hp Hn Hv. destruct (accepted_is_signed root c Hr Hv) as [_ H]. rewrite Hp in H. auto.
+  Qed.
+
+  Theorem wrong_secret_rejected root c s :
+    length root = 32 -> c_proof c = PNextSecret s -> sb_key (last_sblock c) <> pub s ->
+    verify_token root c <> Ok tt.
+  Proof.
+    intros Hr Hp Hn Hv. destruct (accepted_is_signed root c Hr Hv) as [_ H]. rewrite Hp in H. auto.
+  Qed.
 End SigProofs.
+
+Section Uniqueness.
+  Variable pub : bytes -> bytes.
+  Variable sign : bytes -> bytes -> bytes.
+  Hypothesis pub_inj : forall s1 s2, length s1 = 32 -> length s2 = 32 -> pub s1 = pub s2 -> s1 = s2.
+  Hypothesis pub_len : forall s, length s = 32 -> length (pub s) = 32.
+  Hypothesis sign_inj : forall k1 m1 k2 m2, sign k1 m1 = sign k2 m2 -> k1 = k2 /\ m1 = m2.
+
+  Theorem unique_signing_events k1 k2 blk1 blk2 seed1 seed2 :
+    length seed1 = 32 -> length seed2 = 32 -> seed1 <> seed2 ->
+    sign k1 (blk1 ++ le32 0 ++ pub seed1) <> sign k2 (blk2 ++ le32 0 ++ pub seed2).
+  Proof.
+    intros H1 H2 Hne E.
+    apply sign_inj in E as [_ E].
+    apply app_inv_len_tail in E as [_ E].
+    2:{ rewrite !app_length, !le32_length, (pub_len _ H1), (pub_len _ H2). reflexivity. }
+    apply app_inv_len in E as [_ E]; [|reflexivity].
+    apply Hne. apply pub_inj; assumption.
+  Qed.
+End Uniqueness.
+
+Theorem new_id_shape pub sign c blk src c' src' :
+  append pub sign c blk src = Ok (c', src') ->
+  exists s, c_proof c = PNextSecret s /\
+    revocation_ids c' = revocation_ids c ++ [sign s (blk ++ le32 0 ++ pub (firstn 32 src))].
+Proof.
+  unfold append. destruct (c_proof c) as [s|s|]; try discriminate.
+  destruct (negb (length s =? 32)); [discriminate|].
+  unfold gen_seed. destruct (32 <=? length src); cbn [bind]; [|discriminate].
+  intros E. assert (Hc : c' = {| c_rootid := c_rootid c; c_auth := c_auth c;
+    c_blocks := c_blocks c ++ [{| sb_block := blk; sb_alg := 0; sb_key := pub (firstn 32 src);
+                                  sb_sig := sign s (blk ++ le32 0 ++ pub (firstn 32 src)) |}];
+    c_proof := PNextSecret (firstn 32 src) |}) by congruence.
+  subst c'. exists s. split; [reflexivity|].
+  unfold revocation_ids. cbn [c_auth c_blocks]. rewrite map_app. reflexivity.
+Qed.
